@@ -13,6 +13,7 @@ import JinjaV.Wire.Native
 import JinjaV.Wire.FiltColl
 import JinjaV.Wire.Lex
 import JinjaV.Wire.Trim
+import JinjaV.Wire.TplCache
 
 open JinjaV
 
@@ -30,6 +31,7 @@ def dispatch (line : String) : Sx :=
     | "undef" => Wire.Undefined.handle args
     | "lex" => Wire.Lex.handle args
     | "trim" => Wire.Trim.handle args
+    | "tplcache" => Wire.TplCache.handle args
     | "lex-plain" => Wire.Lex.handlePlain args
     | "filt" => Wire.FiltColl.handle args
     | "native" => Wire.Native.handle args
